@@ -343,7 +343,23 @@ class DiscoSpec(OpsSpec):
             idx = int(tag.rsplit("-", 1)[1])
         except (IndexError, ValueError):
             idx = None
+        if seed % 9 == 4:
+            # the same process serving two requests at once (worker threads): a collection is looked
+            # at while it is being created
+            return disco.ThreadedCreateRun(seed, tier, tag).run()
         return disco.DiscoRun(disco.make_config(seed, tier, idx), tag=tag).run()
+
+    def mk(self, cfg, ops, tag):
+        from .engines import disco
+
+        if cfg.get("threads"):
+            return disco.ThreadedCreateRun(cfg.get("seed", 0), "thorough", tag, plan={"ks": cfg["ks"]} if cfg.get("ks") else None)
+        return disco.DiscoRun(cfg, ops=ops, tag=tag)
+
+    def minimise(self, prop, v, res, farm):
+        if (res.get("cfg") or {}).get("threads"):
+            return self.replay_doc(prop, v, res)
+        return self._minimise(prop, v, res, farm)
 
     def nontrivial_keys(self, res):
         lay = res.get("layout") or []
@@ -367,7 +383,7 @@ class DiscoSpec(OpsSpec):
             return "fewer than 50 hrefs followed"
         return None
 
-    def minimise(self, prop, v, res, farm):
+    def _minimise(self, prop, v, res, farm):
         want = (v["oracle"], json.dumps(v["sig"], sort_keys=True))
         cfg = dict(res["cfg"])
 
